@@ -106,17 +106,21 @@ def extract_type_order(tree):
       continue
     els = node.orelse
     break
-  # else: type(value).__qualname__
-  ok = (len(els) == 1 and isinstance(els[0], ast.Assign) and _name(els[0].targets[0]) == out_var
-        and isinstance(els[0].value, ast.Attribute) and els[0].value.attr == '__qualname__'
-        and isinstance(els[0].value.value, ast.Call) and _name(els[0].value.value.func) == 'type'
-        and len(els[0].value.value.args) == 1 and _name(els[0].value.value.args[0]) == var)
-  if not ok:
-    raise TranslatorError('_type_order: the else branch is not `type(value).__qualname__`')
+  # else: the order key of a user class
+  #   unpatched: `type_order = type(value).__qualname__`                       -> "qualname"
+  #   fix F286 : `cls = type(value); type_order = f'{cls.__qualname__}\x00{id(cls)}'` -> "qualname-nul-id"
+  src = [ast.unparse(x) for x in els]
+  if src == [f'{out_var} = type({var}).__qualname__']:
+    class_key = 'qualname'
+  elif src == [f'cls = type({var})', out_var + " = f'{cls.__qualname__}\\x00{id(cls)}'"]:
+    class_key = 'qualname-nul-id'
+  else:
+    raise TranslatorError('_type_order: the else branch is neither `type(value).__qualname__` nor '
+                          "`cls = type(value); f'{cls.__qualname__}\\x00{id(cls)}'`")
   seen = [r for r, _, _ in rows]
   if sorted(seen) != sorted(ROWS):
     raise TranslatorError(f'_type_order: rows {seen} differ from the expected {ROWS}')
-  return rows
+  return rows, class_key
 
 
 def _returns(stmt):
@@ -299,17 +303,25 @@ def extract_hash(dtree, ltree, otree):
   # Object.sym_eq: `self is other or (type(self) is type(other) and base.eq(attrs, attrs))`
   src = ast.unparse(common.find_func(ocls, 'sym_eq'))
   eq_exact = 'type(self) is type(other)' in src and 'base.eq(self._sym_attributes, other._sym_attributes)' in src
-  src = ast.unparse(common.find_func(ocls, 'sym_lt'))
-  if 'type(self) is not type(other)' not in src:
-    lt_same = 'unknown'
-  elif ('list(lattrs.keys()) == list(rattrs.keys())' in src
-        and 'base.lt(list(lattrs.sym_values()), list(rattrs.sym_values()))' in src
-        and 'base.lt(lattrs, rattrs)' in src):
-    lt_same = 'declaration-order'
-  elif 'base.lt(self._sym_attributes, other._sym_attributes)' in src:
+  # Object.sym_lt: other class -> base.lt; same class: the field values by position when <test>,
+  # else the attribute dicts (keys sorted by lt).
+  body = _strip_doc(common.find_func(ocls, 'sym_lt').body)
+  src = [ast.unparse(x) for x in body]
+  lt_same = 'unknown'
+  if (len(body) == 4 and src[0] == 'if type(self) is not type(other):\n    return base.lt(self, other)'
+      and src[1] == 'lattrs, rattrs = (self._sym_attributes, other._sym_attributes)'
+      and isinstance(body[2], ast.If) and not body[2].orelse
+      and [ast.unparse(x) for x in body[2].body]
+      == ['return base.lt(list(lattrs.sym_values()), list(rattrs.sym_values()))']
+      and src[3] == 'return base.lt(lattrs, rattrs)'):
+    test = ast.unparse(body[2].test)
+    if test == 'list(lattrs.keys()) == list(rattrs.keys())':
+      lt_same = 'declaration-order-if-keys-match'          # unpatched (F285)
+    elif test == ('self.__class__.__schema__.dynamic_field is None and '
+                  'list(lattrs.keys()) == list(rattrs.keys())'):
+      lt_same = 'declaration-order-if-all-declared'        # fix F285
+  elif src[-1:] == ['return base.lt(self._sym_attributes, other._sym_attributes)'] and len(body) == 2:
     lt_same = 'as-dict'
-  else:
-    lt_same = 'unknown'
   return dict_comb, eq_exact, lt_same
 
 
@@ -343,7 +355,7 @@ def _codes(s):
 
 def run():
   _, tree = common.parse_source(BASE)
-  rows = extract_type_order(tree)
+  rows, class_key = extract_type_order(tree)
   ltf = extract_lt(tree)
   gt_ok, ne_ok = extract_simple(tree)
   _, dtree = common.parse_source(DICT)
@@ -386,6 +398,8 @@ def run():
   L.append('def symHashPlain : List String := ' + common.lean_list([common.lean_str(k) for k in plain]))
   L.append('def objectEqExactType : Bool := ' + common.lean_bool(eq_exact))
   L.append('def objectLtFields : String := ' + common.lean_str(lt_same))
+  L.append('/-- the order key of a user class in `_type_order` -/')
+  L.append('def classOrderKey : String := ' + common.lean_str(class_key))
   L.append('/-- `Object.__eq__` / `__ne__` / `__hash__` (classes with `use_symbolic_comparison`). -/')
   L.append('def objectOperators : List String := '
            + common.lean_list([common.lean_str(k) for k in (op_eq, op_ne, op_hash)]))
@@ -396,7 +410,7 @@ def run():
       'sources': {p: common.sha(p) for p in (BASE, DICT, LIST, OBJECT)},
       'type_order_rows': [{'row': r, 'rank': s, 'line': ln} for r, s, ln in rows],
       'lt': ltf, 'gt_is_swapped_lt': gt_ok, 'ne_is_not_eq': ne_ok, 'dict_hash_comb': dict_comb,
-      'object_eq_exact_type': eq_exact, 'sym_hash_plain': plain, 'object_lt_same_class_only': lt_same,
+      'object_eq_exact_type': eq_exact, 'sym_hash_plain': plain, 'object_lt_same_class_only': lt_same, 'class_order_key': class_key,
       'object_operators': [op_eq, op_ne, op_hash],
   }
   changed = common.write_gen('C06Order', '\n'.join(L), sidecar)
